@@ -47,6 +47,15 @@ theorem equalEncodingsFirst_ok : Extracted.Env.equalEncodingsFirst = true := by 
 /-- … and for differing encodings it never answers "up to date", whatever the structural comparison says (D25) -/
 theorem equalDecodingsNotUpToDate_ok : Extracted.Env.equalDecodingsUpToDate = false := by decide
 
+/-- the reason switch of `diffEnv` has the case "the environments differ in no part that is listed" (D28) -/
+theorem reasonHandlesNoKnownPart_ok : Extracted.Env.reasonHandlesNoKnownPart = true := by decide
+
+/-- every key `envUnpickler` writes into a decoded environment is listed in `functionEnvKeys`, and every listed key
+is written: a difference between two decoded environments always has a name -/
+theorem unpicklerKeys_ok :
+    (Extracted.Env.unpicklerKeys.all (Extracted.Env.envKeys.contains ·) &&
+     Extracted.Env.envKeys.all (Extracted.Env.unpicklerKeys.contains ·)) = true := by decide
+
 /-- the opcode bytes -/
 theorem opcodes_ok : Extracted.Env.opcodes = Env.opcodeList := by decide
 
